@@ -136,10 +136,24 @@ def o_masks(case):
     ident = case["ident"]
     p = bytes.fromhex(case["payload"])
     lm = case["labelmsm"]
-    m = RTCMMessage(payload=p, labelmsm=lm)
+    via = case.get("via", "ctor")
+    if via == "ctor":
+        m = RTCMMessage(payload=p, labelmsm=lm)
+    else:
+        import io
+
+        from pyrtcm import RTCMReader
+
+        from pv import framing
+
+        f = framing.build_frame(p)
+        if via == "static":
+            m = RTCMReader.parse(f, labelmsm=lm)
+        else:
+            m = next(iter(RTCMReader(io.BytesIO(f), labelmsm=lm, validate=0 if via == "reader-novalidate" else 1, quitonerror=2)))[1]
     sats, sigs, cells = check_msm(ident, p, m, lm)
     nt, cls = classes(ident, sats, sigs, cells)
-    return Res(nontrivial=nt, classes=cls + [f"labelmsm{lm}"])
+    return Res(nontrivial=nt, classes=cls + [f"labelmsm{lm}", "via-" + via])
 
 
 def msm_messages(ident, profile="small"):
@@ -151,7 +165,7 @@ def plan_masks(tier, shard, nshards):
     n = 120 if tier == "quick" else 2000
 
     def strat(i):
-        return st.builds(lambda c, lm: {**c, "labelmsm": lm}, msm_messages(i), st.sampled_from([1, 2]))
+        return st.builds(lambda c, lm, via: {**c, "labelmsm": lm, "via": via}, msm_messages(i), st.sampled_from([1, 2]), st.sampled_from(["ctor", "ctor", "static", "reader", "reader-novalidate"]))
 
     return [(i, strat(i), n) for i in ids]
 
